@@ -74,3 +74,18 @@ Proof.
   split; [intros; apply gen_HasOdds|intros; apply gen_ValidateWinnerOdds].
 Qed.
 Print Assumptions C07_kernels_generated.
+
+(* the payload guards of a market update and of a resolution in the model ARE MarketUpdateTicketPayload.Validate (with validateMarketTS under
+   the block time) and MarketResolutionTicketPayload.Validate (status one of canceled / aborted / declared, at most and at least one winner
+   exactly when declared, resolution time set, well-formed identifiers), generated from x/market/types/ticket.go on every run *)
+Theorem C07_ticket_guards_generated : forall uid st en rts winners status now,
+  K_MarketUpdateTicketPayload_Validate {| G_MarketUpdateTicketPayload_UID := uid; G_MarketUpdateTicketPayload_StartTS := st;
+      G_MarketUpdateTicketPayload_EndTS := en; G_MarketUpdateTicketPayload_Status := status |} now
+  = status_ai status && market_ts_ok now st en /\
+  K_MarketResolutionTicketPayload_Validate
+    {| G_MarketResolutionTicketPayload_UID := uid; G_MarketResolutionTicketPayload_ResolutionTS := rts;
+       G_MarketResolutionTicketPayload_WinnerOddsUIDs := winners; G_MarketResolutionTicketPayload_Status := status |}
+  = status_resolved status && negb ((status =? MK_DECLARED) && (1 <? zlen winners)) && negb (negb (status =? MK_DECLARED) && (0 <? zlen winners))
+    && negb (rts =? 0) && negb (uid <? 0) && negb ((status =? MK_DECLARED) && (zlen winners <? 1)) && forallb (fun o => 0 <=? o) winners.
+Proof. intros. split; [apply gen_update_Validate|apply gen_resolution_Validate]. Qed.
+Print Assumptions C07_ticket_guards_generated.
